@@ -111,7 +111,9 @@ let handle line =
           | Some e ->
             let k = int_of_n e.fkey - 1 in
             let idstr = if logs then dec_of_n e.fid else "~" in
-            if e.flegacy || pool.(k).pdet then begin
+            (* JWT tokens: protojson output is deliberately unstable across binaries (detrand),
+               so a token precomputed by another build of the harness need not be byte-equal *)
+            if (e.flegacy || pool.(k).pdet) && not (List.mem cls ["jwtmac"; "jwtsig"]) then begin
               match produce raw_produce pkd prim msg with
               | Some (id, out) ->
                 let carried =
